@@ -26,7 +26,7 @@ type Ev struct {
 }
 
 type Case struct {
-	Config string `json:"config"` // mem-stream mem-paged sqlite sqlite-batched sqlitemem sqlitemem-batched durable
+	Config string `json:"config"`          // mem-stream mem-paged sqlite sqlite-batched sqlitemem sqlitemem-batched durable
 	Batch  int    `json:"batch,omitempty"` // replay batch size (paged paths; 0 = default) / sqlite stream batch
 	Chunk  int    `json:"chunk,omitempty"` // durable-streams chunk bytes
 	N      int    `json:"n"`
@@ -37,8 +37,8 @@ type Case struct {
 	// while the K-th store read (page, row fetch or HTTP request) is in flight
 	// and lets that read complete, cancel-in-read-err makes it fail with the
 	// context's error as a context-honouring store would.
-	Fault  string `json:"fault"`
-	K      int    `json:"k,omitempty"`
+	Fault string `json:"fault"`
+	K     int    `json:"k,omitempty"`
 }
 
 var errCallback = errors.New("callback failed")
